@@ -13,6 +13,10 @@ R2  sorted-writer <-> bisect-reader agreement: both writers store the two
 R3  merged offsets: trajectory_index + index_offset, the offset advanced by
     len(store) after each input, iterating the caller's list unchanged.
 R4  all-or-none: `add` and `merge` refuse mixed identifier use.
+R5  file-link typestate: `self._nc[<key>]` and `self.index_group.<attr>` are
+    dereferenced only on paths that established that files are attached
+    (CFG with certifying edges removed, propagated over self-calls from the
+    public entry points); an in-memory store answers look-ups from its cache.
 """
 
 from __future__ import annotations
@@ -257,8 +261,20 @@ def rule_sorted(ctx, m):
             src = r.value.slice.value
             dd = single_def_value(gf.node, src.id) if isinstance(src, ast.Name) else None
             okr = dd is not None and "variables['trajectory_index']" in norm(dd)
+        why_ok = 'returns the trajectory at the parallel trajectory_index slot'
+        if not okr and isinstance(r.value, ast.Name):
+            # in-memory branch: exact match over the cached trajectories
+            lp = next((a for a in ancestors(r) if isinstance(a, ast.For)), None)
+            gs = [(norm(t), pol) for t, pol, _ in guards_of(r)]
+            fid = gf.params[1]
+            if lp is not None and isinstance(lp.target, ast.Name) and lp.target.id == r.value.id \
+                    and norm(lp.iter) == 'self._trajectories.values()' \
+                    and any(tx in (f'{r.value.id}.flight_id == {fid}', f'{fid} == {r.value.id}.flight_id') and pol for tx, pol in gs) \
+                    and any(tx == 'not self.nc_linked' and pol or tx == 'self.nc_linked' and not pol for tx, pol in gs):
+                okr = True
+                why_ok = 'in-memory store: the cached trajectory whose identifier equals the requested one'
         ctx.ob('C08-R2', gf, f'return {txt}', okr,
-               'returns the trajectory at the parallel trajectory_index slot' if okr else
+               why_ok if okr else
                'the returned trajectory is not looked up through the parallel trajectory_index slot',
                line=r.lineno)
 
@@ -378,12 +394,141 @@ def rule_all_or_none(ctx, m):
            'under `if indexable`' if ok else 'merged index creation is not tied to the inputs being identified')
 
 
+LINKED_ATOMS = {'self.nc_linked', 'self._file_creation_pending'}
+
+
+def rule_linked(ctx, m, rule='C08-R5', entries=None):
+    """Typestate of the file link.  A TrajectoryStore created without a base file is purely in memory until save():
+    `self._nc` is empty and `self.index_group` is None.  Every operation that can be invoked on such a store must
+    reach a dereference of those two (`self._nc[<fixed key>]`, `self.index_group.<attr>`) only on paths that have
+    established that files are attached: a branch on `self.nc_linked` / `self._file_creation_pending`, a loop over
+    `self._nc` / `self._nc_files`, or a call that attaches files.  Decided on the CFG of each method with the
+    certifying edges removed, propagated over `self.<method>()` calls from the public entry points."""
+    import re
+    cls = m.cls('TrajectoryStore')
+    meths = {k: v for k, v in cls.methods.items()}
+
+    def is_static(fi):
+        return any(norm(d) in ('staticmethod', 'classmethod') for d in fi.node.decorator_list)
+
+    # methods that attach files (store into self._nc / append to self._nc_files), transitively over self-calls
+    attach = set()
+    changed = True
+    while changed:
+        changed = False
+        for name, fi in meths.items():
+            if name in attach:
+                continue
+            hit = False
+            for x in walk_no_nested(fi.node):
+                if isinstance(x, ast.Subscript) and isinstance(x.ctx, ast.Store) and norm(x.value) == 'self._nc':
+                    hit = True
+                if isinstance(x, ast.Call) and call_name(x) in ('self._nc_files.append', 'self._nc_files.extend'):
+                    hit = True
+                if isinstance(x, ast.Call) and call_name(x).startswith('self.') and call_name(x)[5:] in attach:
+                    hit = True
+            if hit:
+                attach.add(name)
+                changed = True
+
+    def analyse(fi):
+        g = CFG(fi.node)
+        loopvars = set()
+        keyed = {t.id for t, st, how in stores_to(fi.node) if isinstance(t, ast.Name) and getattr(st, 'value', None) is not None
+                 and re.search(r'self\._nc(_files)?\b', norm(st.value))}
+        for x in walk_no_nested(fi.node):
+            if isinstance(x, (ast.For, ast.comprehension)) and (re.search(r'self\._nc(_files)?\b', norm(x.iter))
+                                                                or (isinstance(x.iter, ast.Name) and x.iter.id in keyed)):
+                loopvars |= {y.id for y in ast.walk(x.target) if isinstance(y, ast.Name)}
+
+        def certifies(a, b, lab):
+            n = g.nodes[a]
+            s_ = n.stmt
+            if n.kind == 'test' and isinstance(s_, (ast.If, ast.While)) and lab in ('t', 'f'):
+                facts = conjuncts(s_.test, lab == 't')
+                if any(norm(e) in LINKED_ATOMS and pol for e, pol in facts):
+                    return True
+                if any(re.fullmatch(r'len\(self\._nc(_files)?\) (> 0|!= 0|>= 1)', norm(e)) and pol for e, pol in facts):
+                    return True
+            if n.kind == 'iter' and lab == 't' and re.search(r'self\._nc(_files)?\b', norm(s_.iter)):
+                return True
+            if n.kind == 'stmt' and lab != 'e' and s_ is not None:
+                for c in calls_in(s_):
+                    if call_name(c).startswith('self.') and call_name(c)[5:] in attach:
+                        return True
+                for x in ast.walk(s_):
+                    if isinstance(x, ast.Subscript) and isinstance(x.ctx, ast.Store) and norm(x.value) == 'self._nc':
+                        return True
+                if isinstance(s_, ast.Assign) and any(norm(t) == 'self.index_group' for t in s_.targets) \
+                        and not (isinstance(s_.value, ast.Constant) and s_.value.value is None):
+                    return True
+            return False
+        reach = g._reach(edge_ok=lambda a, b, lab: not certifies(a, b, lab)) if hasattr(g, '_reach') else set()
+        derefs, calls = [], []
+        for nid in reach:
+            n = g.nodes[nid]
+            if n.stmt is None or n.kind in ('finally', 'dispatch', 'join', 'except'):
+                continue
+            heads = {'stmt': [n.stmt], 'test': [getattr(n.stmt, 'test', None)], 'iter': [getattr(n.stmt, 'iter', None)],
+                     'with': [i.context_expr for i in getattr(n.stmt, 'items', [])]}.get(n.kind, [])
+            for h in heads:
+                if h is None:
+                    continue
+                for x in ast.walk(h):
+                    if isinstance(x, (ast.FunctionDef, ast.Lambda)):
+                        continue
+                    if isinstance(x, ast.Subscript) and isinstance(x.ctx, ast.Load) and norm(x.value) == 'self._nc' \
+                            and not (isinstance(x.slice, ast.Name) and x.slice.id in loopvars):
+                        # `a or self._nc[k]` style short circuits are part of the statement: keep it simple, report
+                        derefs.append((x, f'self._nc[{norm(x.slice)}]'))
+                    if isinstance(x, ast.Attribute) and isinstance(x.ctx, ast.Load) and norm(x.value) == 'self.index_group':
+                        derefs.append((x, f'self.index_group.{x.attr}'))
+                    if isinstance(x, ast.Call) and call_name(x).startswith('self.') and call_name(x)[5:] in meths \
+                            and call_name(x).count('.') == 1:
+                        calls.append((x, call_name(x)[5:]))
+        return derefs, calls
+
+    if entries is None:
+        entries = [k for k, v in meths.items() if not is_static(v) and (not k.startswith('_') or (k.startswith('__') and k != '__init__'))]
+    summ = {}
+    exposed = {}
+    work = []
+    for e in entries:
+        if e in meths:
+            exposed[e] = [e]
+            work.append(e)
+    while work:
+        f = work.pop()
+        if f not in summ:
+            summ[f] = analyse(meths[f])
+        for c, callee in summ[f][1]:
+            if callee not in exposed and not is_static(meths[callee]):
+                exposed[callee] = exposed[f] + [callee]
+                work.append(callee)
+    n = 0
+    for f, path in sorted(exposed.items()):
+        for x, what in summ[f][0]:
+            n += 1
+            ctx.ob(rule, meths[f], f'{what} reachable without an attached file (via {" → ".join(path)})', False,
+                   (f'on a store created in memory (no base file) `{path[0]}` reaches `{what}` with no test that files are attached: '
+                    + ('self._nc is empty there (KeyError)' if what.startswith('self._nc') else 'self.index_group is None there')
+                    + ' — an identified in-memory store cannot be searched, synchronised or closed'), line=x.lineno,
+                   path=path)
+    ctx.ob(rule, (m.relpath, 'TrajectoryStore'), f'{len(exposed)} methods reachable from {len(entries)} entry points; '
+           f'{n} unprotected dereference(s) of file-only state', n == 0,
+           'every dereference of self._nc[…] / self.index_group is behind a test that files are attached' if n == 0 else 'see above',
+           nontrivial=False)
+    ctx.floor(rule, len(exposed), 10, 'methods examined for the file-link typestate')
+    ctx.stats[f'{rule}.attaching_methods'] = sorted(attach)
+
+
 def run(ctx):
     m = ctx.prog.module(STORE)
     rule_stale(ctx, m)
     rule_sorted(ctx, m)
     rule_offsets(ctx, m)
     rule_all_or_none(ctx, m)
+    rule_linked(ctx, m)
     ctx.note('wrong-trajectory reads in append sessions caused by a stale size table are reported under C07-R1')
     ctx.assumptions += ['bisect_left on an ascending array returns the left-most slot of an equal key',
                         'netCDF4 variable slices return arrays in stored order']
